@@ -585,11 +585,55 @@ def run_cli(tier, rnd, st, res):
         shutil.rmtree(tmp, ignore_errors=True)
 
 
+def run_cli_honoured(tier, rnd, st, res):
+    """the command line tool honours its symbol arguments: the symbol written for --pattern / --version / --error (falsy values such
+    as pattern 0 included) is read back from a txt output and judged (mask, version and level as requested)"""
+    import tempfile
+    from segno import cli
+    lines, meta = [], []
+    with tempfile.TemporaryDirectory(prefix='c14-cli-') as tmp:
+        cases = [(p, v, e) for p in range(8) for v, e in ((None, None), ('1', 'h'), ('3', 'M'))]
+        cases += [(p, 'M4', 'L') for p in range(4)] + [(0, None, 'q'), (0, '2', None)]
+        for n, (pattern, version, error) in enumerate(cases):
+            out = os.path.join(tmp, f'{n}.txt')
+            argv = ['--pattern', str(pattern), '--border', '0', '--output', out]
+            if version:
+                argv += ['--version', version]
+            if error:
+                argv += ['--error', error, '--no-error-boost']
+            content = rnd.choice(['Hello', '0123456', 'SEGNO', 'cli honours arguments'][: 3 if version == 'M4' else 4])
+            argv.append(content)
+            try:
+                with contextlib.redirect_stderr(io.StringIO()), contextlib.redirect_stdout(io.StringIO()):
+                    rc = cli.main(argv)
+            except SystemExit as ex:
+                rc = ex.code
+            res.evaluations += 1
+            if rc != 0 or not os.path.exists(out):
+                continue     # refusals are judged by run_cli
+            rows = [r for r in open(out).read().split('\n') if r]
+            req = f'reqmask={pattern}'
+            if version:
+                req += f' micro=- reqver={norm_version(version)}'
+            if error:
+                req += f' reqerr={norm_error(error)} boost=0'
+            lines.append(f'sym id={len(lines)} m={"/".join(rows)} {req}')
+            meta.append('segno.cli.main(' + repr(argv[:-3] + ['<file>.txt', content]) + ')')
+    for call, o in zip(meta, run_lines_parallel(JUDGE, lines, jobs=2)):
+        kv = parse_kv(o)
+        bad = [f'{k}={kv.get(k)}' for k in ('c06', 'c04', 'c05') if kv.get(k, '-') not in ('ok', '-')]
+        res.nontrivial.add(('cli-honoured', call))
+        if bad:
+            res.violations.append(dict(property_field='c14', verdict='cli-argument-not-honoured:' + ','.join(bad), call=call,
+                                       judge={k: kv[k] for k in kv if k not in ('cw', 'bytes')}, known_id=None))
+
+
 def run_C14(tier, rnd, st, res):
     calls = run_make_family(tier, rnd, st, res)
     run_spellings(tier, rnd, st, res)
     run_serializers(tier, rnd, st, res)
     run_cli(tier, rnd, st, res)
+    run_cli_honoured(tier, rnd, st, res)
     res.rule = ('pairwise-complete product + random k-wise rows of boundary / malformed values over all parameters of make, make_qr, make_micro, '
                 'make_sequence (10 s alarm per call); alternative spellings vs canonical; serialisers x malformed colours / scale / border / kind '
                 'for all 13 kinds; cli.main in-process (pairwise over its options). non-trivial = judged calls, distinct by (function, outcome, '
